@@ -648,3 +648,69 @@ func vGradientLayouts() (n int, fails []string) {
 //@   ensures[inserted] (*a)[i] == item
 //@   ensures[head-kept] forall(k, 0, i, (*a)[k] == old((*a)[k]))
 //@   ensures[tail-shifted-in-order] forall(k, i, old(len(*a)), (*a)[k+1] == old((*a)[k]))
+
+// bounded stand-in (C14 / C01): drawLine (collapsed table borders and text decorations) for every line style,
+// thicknesses 0, 1 and 3 (font metrics may give a null underline thickness), horizontal and vertical, dash
+// offsets 0, 12.5 and 300, on a canvas that checks every number it receives: the call returns (a wavy line of null
+// thickness must not loop for ever) and every coordinate, width, dash length and dash offset is finite.
+type vFiniteCanvas struct {
+	backend.Canvas
+	bad *[]string
+}
+
+type vFiniteState struct {
+	backend.GraphicState
+	bad *[]string
+}
+
+func vFinite(bad *[]string, what string, vs ...fl) {
+	for _, v := range vs {
+		if math.IsNaN(float64(v)) || math.IsInf(float64(v), 0) {
+			*bad = append(*bad, fmt.Sprintf("%s%v", what, vs))
+			return
+		}
+	}
+}
+
+func (c vFiniteCanvas) OnNewStack(f func())         { f() }
+func (c vFiniteCanvas) State() backend.GraphicState { return vFiniteState{c.Canvas.State(), c.bad} }
+func (c vFiniteCanvas) MoveTo(x, y fl)              { vFinite(c.bad, "MoveTo", x, y) }
+func (c vFiniteCanvas) LineTo(x, y fl)              { vFinite(c.bad, "LineTo", x, y) }
+func (c vFiniteCanvas) Rectangle(x, y, w, h fl)     { vFinite(c.bad, "Rectangle", x, y, w, h) }
+func (c vFiniteCanvas) CubicTo(a, b, d, e, f, g fl) {
+	vFinite(c.bad, "CubicTo", a, b, d, e, f, g)
+}
+func (s vFiniteState) SetLineWidth(w fl) { vFinite(s.bad, "SetLineWidth", w) }
+func (s vFiniteState) SetDash(dashes []fl, offset fl) {
+	vFinite(s.bad, "SetDash", append(append([]fl{}, dashes...), offset)...)
+}
+
+func vDrawLines() (n int, fails []string) {
+	page := tracer.NewDrawerNoOp().AddPage(0, 0, 100, 100)
+	for _, style := range []pr.String{"solid", "dashed", "dotted", "double", "ridge", "groove", "wavy", "inset"} {
+		for _, thickness := range []fl{0, 1, 3} {
+			for _, offset := range []fl{0, 12.5, 300} {
+				for _, vertical := range []bool{false, true} {
+					if vertical && style == "wavy" {
+						continue // only text decorations are wavy: horizontal
+					}
+					n++
+					var bad []string
+					ctx := drawContext{dst: vFiniteCanvas{page, &bad}}
+					if vertical {
+						ctx.drawLine(10, 10, 10, 90, thickness, style, [2]Color{{R: 1, A: 1}, {B: 1, A: 1}}, offset)
+					} else {
+						ctx.drawLine(10, 10, 90, 10, thickness, style, [2]Color{{R: 1, A: 1}, {B: 1, A: 1}}, offset)
+					}
+					if len(bad) != 0 && len(fails) < 6 {
+						fails = append(fails, fmt.Sprintf("drawLine %s thickness %v offset %v vertical %v: %v", style, thickness, offset, vertical, bad[0]))
+					}
+				}
+			}
+		}
+	}
+	return n, fails
+}
+
+//@ bounded vDrawLines drawLine for 8 line styles x thicknesses 0, 1, 3 x dash offsets 0, 12.5, 300 x horizontal / vertical on a number-checking canvas: returns, and every number handed to the backend is finite
+//@   props C14 C01
